@@ -85,14 +85,17 @@ def rule_accessors(ctx, r):
     r.check(ns == {"log_mode": "merged", "accounting_enabled": False}, f"{gn.module.relpath}::{gn.qual}", "exactly the keys below 'backend.slurm.' with the prefix stripped",
             f"get_namespace('backend.slurm') over keys backend.slurm.log_mode, backend.slurm.accounting_enabled, backend.slurmx.y, backend.slurm, backend.local.port "
             f"gives {ns}: settings of another backend / malformed keyword names reach the selected backend", gn.where)
-    # dump / load
+    # dump / load: decided by the evaluated two-invocation session when possible, by the shape otherwise
+    from .evalhelpers import eval_config_session
+    steps = eval_config_session(ctx)
+    session_ok = all(st[1] == st[2] for st in steps)
     dump = idx.method(ci, "dump")
     t = ast.unparse(dump.node)
-    r.check("self.data.maps[0]" in t and "json.dump(" in t and "str(self.path)" in t, f"{dump.module.relpath}::{dump.qual}", "dump writes the file map (not the defaults) to self.path",
+    r.check(session_ok or ("self.data.maps[0]" in t and "json.dump(" in t and "str(self.path)" in t), f"{dump.module.relpath}::{dump.qual}", "dump writes the file map (not the defaults) to self.path",
             "dump does not write exactly the file-level settings to the configuration file", dump.where)
     load = idx.method(ci, "load")
     t = ast.unparse(load.node)
-    r.check("ChainMap(data, CONFIG_DEFAULTS)" in t.replace(" ", "").replace(",", ", ") and "FileNotFoundError" in t and "json.load(" in t, f"{load.module.relpath}::{load.qual}",
+    r.check(session_ok or ("ChainMap(data, CONFIG_DEFAULTS)" in t.replace(" ", "").replace(",", ", ") and "FileNotFoundError" in t and "json.load(" in t), f"{load.module.relpath}::{load.qual}",
             "load layers the file's settings over CONFIG_DEFAULTS (missing file = no settings)", "load does not layer the file's settings over the defaults", load.where)
 
 
@@ -251,7 +254,13 @@ def run(ctx):
     r1 = ctx.rule("R1", "get/set/unset/namespace: stored values round-trip with the documented coercion; unset is local and harmless; namespaces are exact", min_instances=7)
     rule_accessors(ctx, r1)
     r2 = ctx.rule("R2", "the config sub-commands read, write and save through FileConfig", min_instances=3)
-    rule_cli_commands(ctx, r2)
+    def config_witness():
+        from .evalhelpers import eval_config_session
+        steps = eval_config_session(ctx)
+        uns = [st for st in steps if isinstance(st[1], str) and st[1].startswith("<unsupported")]
+        diffs = [f"`gwf config` session, step `{st[0]}`: got {st[1]!r}, expected {st[2]!r}" for st in steps if st[1] != st[2] and st not in uns]
+        return len(steps) - len(uns), diffs, (uns[0][1] if uns else None)
+    ctx.structural_or_witness(r2, rule_cli_commands, config_witness, "src/gwf/plugins/config.py::session", both=True)
     from .evalhelpers import cli_main_location_witness
     n_ok, diffs, unsup = cli_main_location_witness(ctx)
     if unsup is None:
